@@ -130,3 +130,33 @@ def run_batch(requests: list[dict], timeout=1800) -> list[dict]:
             f"model driver answered {len(lines)} of {len(requests)} requests (rc={p.returncode}): {p.stderr[-2000:]}"
         )
     return [json.loads(l) for l in lines]
+
+
+def own_imports(module: str) -> list[str]:
+    """Transitive closure of `import SnaxVerif.*` starting from a module (source files of this project only)."""
+    seen, todo = [], [module]
+    while todo:
+        m = todo.pop()
+        if m in seen:
+            continue
+        path = os.path.join(LEAN, *m.split(".")) + ".lean"
+        if not os.path.exists(path):
+            continue
+        seen.append(m)
+        for line in open(path):
+            mm = re.match(r"\s*import\s+(SnaxVerif[\w.]*)", line)
+            if mm:
+                todo.append(mm.group(1))
+    return sorted(seen)
+
+
+def recheck(module: str, timeout=1800):
+    """Independent re-check of the compiled declarations with leanchecker (thorough tier)."""
+    mods = own_imports(module)
+    try:
+        p = subprocess.run(["lake", "env", "leanchecker", *mods], cwd=LEAN, capture_output=True, text=True, timeout=timeout)
+    except FileNotFoundError:
+        return None, mods, "leanchecker not found"
+    except subprocess.TimeoutExpired:
+        return None, mods, "leanchecker timed out"
+    return p.returncode == 0, mods, (p.stdout + p.stderr)[-1500:]
